@@ -438,6 +438,19 @@ Proof.
     apply Nat.eqb_eq in Ex. subst x. rewrite Hal. exact I.
 Qed.
 
+Lemma leaf_map_x : forall al N h a f, St N h -> al a = None ->
+  St N (leaf_map h a f) /\ xframe al N h (leaf_map h a f).
+Proof.
+  intros al N h a f HSt Hal. unfold leaf_map.
+  destruct (cells h a) eqn:E; try (split; [auto|apply xframe_refl]).
+  assert (a < next h) as Hr by (apply wf_alloc_lt; [apply HSt|congruence]).
+  split.
+  - apply write_St_only; auto. intros _. exact I.
+  - unfold write, xframe; simpl. split; [lia|].
+    intros x Hx. destruct (Nat.eqb x a) eqn:Ex; [|apply rel_refl].
+    apply Nat.eqb_eq in Ex. subst x. rewrite Hal. exact I.
+Qed.
+
 Lemma precompute_x : forall al N h a, St N h -> allows al a cacheF ->
   St N (precompute h a) /\ xframe al N h (precompute h a).
 Proof.
@@ -461,6 +474,7 @@ Definition permits (al : policy) (e : env) (o : sop) : Prop :=
   match o with
   | SAddPod _ _ | SNewClaim _ _ => True
   | SPrecompute t => forall a, nth_error (e_types e) t = Some a -> allows al a cacheF
+  | SInjectTSC i _ => forall a, nth_error (e_pods e) i = Some a -> al a = None
   | PNominate i _ => forall r, nth_error (e_roots e) i = Some r -> allows al r nomF
   | PMark _ => al (e_book e) = None
   end.
@@ -468,7 +482,7 @@ Definition permits (al : policy) (e : env) (o : sop) : Prop :=
 Lemma step_x : forall al e N copies h o, St N h -> Forall (opt_ge N) copies -> permits al e o ->
   St N (step e copies h o) /\ xframe al N h (step e copies h o).
 Proof.
-  intros al e N copies h o HSt Hc Hp. destruct o as [i key|s mask|t|i t|pod]; simpl.
+  intros al e N copies h o HSt Hc Hp. destruct o as [i key|s mask|t|i k|i t|pod]; simpl.
   - destruct (nth i copies None) as [c|] eqn:En.
     + assert (N <= c) as Hge.
       { destruct (nth_in_or_default i copies None) as [Hin|Hd]; [|rewrite En in Hd; discriminate].
@@ -480,6 +494,9 @@ Proof.
     + split; [auto|apply xframe_refl].
   - destruct (nth_error (e_types e) t) as [a|] eqn:En.
     + apply precompute_x; auto; try (apply (Hp a); exact En).
+    + split; [auto|apply xframe_refl].
+  - destruct (nth_error (e_pods e) i) as [a|] eqn:En.
+    + apply leaf_map_x; auto; try (apply (Hp a); exact En).
     + split; [auto|apply xframe_refl].
   - destruct (nth_error (e_roots e) i) as [r|] eqn:En.
     + apply set_field_x; auto; try (apply (Hp r); exact En).
@@ -534,13 +551,19 @@ Qed.
 Definition cache_of (e : env) (a : addr) : list string := if mem_a a (e_types e) then [cacheF] else [].
 Definition nom_of (e : env) (a : addr) : list string := if mem_a a (e_roots e) then [nomF] else [].
 
-(* the scheduler proper: nothing but the lazily computed cache field of provider instance types *)
-Definition al_sched (e : env) : policy := fun a => Some (cache_of e a).
-(* a simulation: additionally the bookkeeping cell (the finding) *)
-Definition al_sim (e : env) : policy := fun a => if Nat.eqb a (e_book e) then None else Some (cache_of e a).
+(* shared pods (candidates' pods, cached virtual pods) and the bookkeeping cell are the known exceptions *)
+Definition exempt (e : env) (a : addr) : bool := Nat.eqb a (e_book e) || mem_a a (e_pods e).
+Definition exempt_pods (e : env) (a : addr) : bool := mem_a a (e_pods e).
+
+(* no marks, no writes to shared pods: nothing but the lazily computed cache field of provider instance types *)
+Definition al_strict (e : env) : policy := fun a => Some (cache_of e a).
+(* the scheduler proper: additionally the shared pods (findings) *)
+Definition al_sched (e : env) : policy := fun a => if exempt_pods e a then None else Some (cache_of e a).
+(* a simulation: additionally the bookkeeping cell (finding) *)
+Definition al_sim (e : env) : policy := fun a => if exempt e a then None else Some (cache_of e a).
 (* a provisioning pass: additionally nominatedUntil of the cluster's own nodes *)
 Definition al_prov (e : env) : policy :=
-  fun a => if Nat.eqb a (e_book e) then None else Some (nom_of e a ++ cache_of e a).
+  fun a => if exempt e a then None else Some (nom_of e a ++ cache_of e a).
 
 Lemma cache_allowed : forall e t a, nth_error (e_types e) t = Some a -> In cacheF (cache_of e a).
 Proof.
@@ -552,29 +575,41 @@ Proof.
   intros e i r H. apply nth_error_In in H. apply mem_a_In in H. unfold nom_of. rewrite H. left; auto.
 Qed.
 
+Lemma pod_exempt : forall e i a, nth_error (e_pods e) i = Some a -> mem_a a (e_pods e) = true.
+Proof. intros e i a H. apply nth_error_In in H. apply mem_a_In. exact H. Qed.
+
 Definition no_nom (o : sop) : bool := match o with PNominate _ _ => false | _ => true end.
 
 Lemma permits_prov : forall e o, permits (al_prov e) e o.
 Proof.
-  intros e [i key|s mask|t|i t|pod]; simpl; auto.
-  - intros a H. unfold allows, al_prov. destruct (Nat.eqb a (e_book e)); auto.
+  intros e [i key|s mask|t|i k|i t|pod]; simpl; auto.
+  - intros a H. unfold allows, al_prov. destruct (exempt e a); auto.
     apply in_or_app. right. eapply cache_allowed; eauto.
-  - intros r H. unfold allows, al_prov. destruct (Nat.eqb r (e_book e)); auto.
+  - intros a H. unfold al_prov, exempt. rewrite (pod_exempt e i a H). rewrite orb_true_r. reflexivity.
+  - intros r H. unfold allows, al_prov. destruct (exempt e r); auto.
     apply in_or_app. left. eapply nom_allowed; eauto.
-  - unfold al_prov. rewrite Nat.eqb_refl. reflexivity.
+  - unfold al_prov, exempt. rewrite Nat.eqb_refl. reflexivity.
 Qed.
 
 Lemma permits_sim : forall e o, no_nom o = true -> permits (al_sim e) e o.
 Proof.
-  intros e [i key|s mask|t|i t|pod] H; simpl; auto; try discriminate H.
-  - intros a Ha. unfold allows, al_sim. destruct (Nat.eqb a (e_book e)); auto. eapply cache_allowed; eauto.
-  - unfold al_sim. rewrite Nat.eqb_refl. reflexivity.
+  intros e [i key|s mask|t|i k|i t|pod] H; simpl; auto; try discriminate H.
+  - intros a Ha. unfold allows, al_sim. destruct (exempt e a); auto. eapply cache_allowed; eauto.
+  - intros a Ha. unfold al_sim, exempt. rewrite (pod_exempt e i a Ha). rewrite orb_true_r. reflexivity.
+  - unfold al_sim, exempt. rewrite Nat.eqb_refl. reflexivity.
 Qed.
 
 Lemma permits_sched : forall e o, is_sim_op o = true -> permits (al_sched e) e o.
 Proof.
-  intros e [i key|s mask|t|i t|pod] H; simpl; auto; try discriminate H.
-  intros a Ha. unfold allows, al_sched. eapply cache_allowed; eauto.
+  intros e [i key|s mask|t|i k|i t|pod] H; simpl; auto; try discriminate H.
+  - intros a Ha. unfold allows, al_sched. destruct (exempt_pods e a); auto. eapply cache_allowed; eauto.
+  - intros a Ha. unfold al_sched, exempt_pods. rewrite (pod_exempt e i a Ha). reflexivity.
+Qed.
+
+Lemma permits_strict : forall e o, is_sim_op o = true -> touches_shared_pod o = false -> permits (al_strict e) e o.
+Proof.
+  intros e [i key|s mask|t|i k|i t|pod] H H2; simpl; auto; try discriminate H; try discriminate H2.
+  intros a Ha. unfold allows, al_strict. eapply cache_allowed; eauto.
 Qed.
 
 Lemma sched_ops_sim : forall l, Forall (fun o => is_sim_op o = true) (sched_ops l).
@@ -610,22 +645,25 @@ Qed.
 Lemma generated_table_ok : table_ok table = true.
 Proof. vm_compute. reflexivity. Qed.
 
-Definition genv (roots slices types : list addr) (book : addr) : env := mkEnv table roots slices types book.
+Definition genv (roots slices types pods : list addr) (book : addr) : env := mkEnv table roots slices types pods book.
 
-(* Scheduler decisions only (ExistingNode.Add, slice filtering and sorting, lazy precompute): for any number of
-   consecutive runs and any decisions, nothing that existed before is written, except the unset cache field of a
-   provider instance type; in particular no provider-owned map and no cluster-state cell. *)
-Lemma scheduling_writes_fresh_only_l : forall roots slices types book h (runs : list (list sop)) a,
-  wf h -> a < next h ->
-  let h' := run_all (genv roots slices types book) h (map sched_ops runs) in
+(* Scheduler decisions only (ExistingNode.Add, slice filtering and sorting, lazy precompute, and the two in-place
+   writes to shared pods): for any number of consecutive runs and any decisions, nothing that existed before is
+   written, except the shared pods and the unset cache field of a provider instance type; in particular no
+   provider-owned map and no cluster-state cell. *)
+Lemma scheduling_writes_fresh_only_l : forall roots slices types pods book h (runs : list (list sop)) a,
+  wf h -> a < next h -> ~ In a pods ->
+  let h' := run_all (genv roots slices types pods book) h (map sched_ops runs) in
   (~ In a types -> cells h' a = cells h a) /\ same_except_l [cacheF] (cells h a) (cells h' a).
 Proof.
-  intros roots slices types book h runs a Hwf Ha. simpl.
-  set (e := genv roots slices types book).
+  intros roots slices types pods book h runs a Hwf Ha Hp. simpl.
+  set (e := genv roots slices types pods book).
   destruct (run_all_x (al_sched e) e (map sched_ops runs) h generated_table_ok Hwf) as [_ [_ X]].
   - apply Forall_forall. intros ops Hin. apply in_map_iff in Hin. destruct Hin as [r [Hr _]]. subst ops.
     eapply Forall_impl; [|apply sched_ops_sim]. intros o Ho. apply permits_sched; auto.
-  - exact (rel_cache_of e a _ _ (X a Ha)).
+  - specialize (X a Ha). unfold al_sched, exempt_pods in X.
+    destruct (mem_a a (e_pods e)) eqn:M; [apply mem_a_In in M; contradiction|].
+    exact (rel_cache_of e a _ _ X).
 Qed.
 
 Lemma simulate_all_is_run_all : forall e calls h,
@@ -650,72 +688,96 @@ Lemma sim_runs_permitted : forall e calls,
     (map (fun c => map PMark (pending_marks (s_outcome c) (s_rejected c)) ++ sched_ops (s_decisions c)) calls).
 Proof. intros e calls. induction calls; simpl; constructor; auto using sim_ops_no_nom. Qed.
 
-(* The faithful SimulateScheduling (which marks rejected pending pods): apart from the bookkeeping cell and the
-   unset cache field of provider instance types, every cell that existed before is untouched, for any number of
-   consecutive simulations with any outcome. *)
-Lemma simulate_writes_fresh_only_l : forall roots slices types book h calls a,
-  wf h -> a < next h -> a <> book ->
-  let h' := simulate_all (genv roots slices types book) h calls in
+(* The faithful SimulateScheduling: apart from the bookkeeping cell, the shared pods and the unset cache field of
+   provider instance types, every cell that existed before is untouched, for any number of consecutive simulations
+   with any outcome. *)
+Lemma simulate_writes_fresh_only_l : forall roots slices types pods book h calls a,
+  wf h -> a < next h -> a <> book -> ~ In a pods ->
+  let h' := simulate_all (genv roots slices types pods book) h calls in
   (~ In a types -> cells h' a = cells h a) /\ same_except_l [cacheF] (cells h a) (cells h' a).
 Proof.
-  intros roots slices types book h calls a Hwf Ha Hb. simpl.
+  intros roots slices types pods book h calls a Hwf Ha Hb Hp. simpl.
   rewrite simulate_all_is_run_all.
-  set (e := genv roots slices types book).
+  set (e := genv roots slices types pods book).
   destruct (run_all_x (al_sim e) e _ h generated_table_ok Hwf (sim_runs_permitted e calls))
     as [_ [_ X]].
-  specialize (X a Ha). unfold al_sim in X. simpl in X.
+  specialize (X a Ha). unfold al_sim, exempt in X. simpl in X.
   destruct (Nat.eqb a book) eqn:Eb; [apply Nat.eqb_eq in Eb; contradiction|].
+  destruct (mem_a a pods) eqn:M; [apply mem_a_In in M; contradiction|].
   exact (rel_cache_of e a _ _ X).
 Qed.
 
-(* The property text at full strength fails on the faithful model: one simulation of a cluster with a pending pod
-   that fails validation changes the cluster's pod bookkeeping. *)
-Definition wit_heap : heap := mkHeap (fun a => match a with 0 => CLeaf [] | _ => CFree end) 1.
+(* The property text at full strength fails on the faithful model, in two ways (both confirmed on the real code):
+   (1) a pending pod that fails validation gets its scheduling decision recorded; (2) default topology-spread
+   constraints are written into a shared pod.  (A third — preferred node-affinity terms sorted in place — was fixed
+   in /repo, bad8fc38d, and left the model.) *)
+Definition wit_heap : heap := mkHeap (fun a => match a with 0 => CLeaf [] | 1 => CLeaf [8%Z; 1%Z] | _ => CFree end) 2.
+
+Lemma wit_wf : wf wit_heap.
+Proof. intros a Ha. unfold wit_heap in *. simpl in *. destruct a as [|[|a]]; try lia. reflexivity. Qed.
 
 Lemma simulate_changes_nothing_refuted_l :
-  exists roots slices types book h calls a,
-    wf h /\ a < next h /\ ~ In a types /\
-    cells (simulate_all (genv roots slices types book) h calls) a <> cells h a.
+  exists roots slices types pods book h calls a,
+    wf h /\ a < next h /\ ~ In a types /\ ~ In a pods /\
+    cells (simulate_all (genv roots slices types pods book) h calls) a <> cells h a.
 Proof.
-  exists [], [], [], 0, wit_heap, [mkSim OOk [7%Z] []], 0.
-  split; [|split; [|split]].
-  - intros a Ha. unfold wit_heap in *. simpl in *. destruct a; [lia|reflexivity].
-  - simpl. lia.
-  - intros [].
+  exists [], [], [], [1], 0, wit_heap, [mkSim OOk [7%Z] []], 0.
+  split; [apply wit_wf|split; [simpl; lia|split; [intros []|split]]].
+  - intros [H|[]]. discriminate H.
   - vm_compute. discriminate.
 Qed.
 
-(* ... and holds when no pending pod is marked: no pod fails validation, or the call returns before
-   GetPendingPods (candidate already deleting, listing failed). *)
-Lemma simulate_changes_nothing_partial_l : forall roots slices types book h calls a,
+Lemma simulate_writes_shared_pods_refuted_l :
+  exists roots slices types pods book h calls a,
+    wf h /\ a < next h /\ a <> book /\
+    Forall (fun c => pending_marks (s_outcome c) (s_rejected c) = []) calls /\
+    cells (simulate_all (genv roots slices types pods book) h calls) a <> cells h a.
+Proof.
+  exists [], [], [], [1], 0, wit_heap, [mkSim OOk [] [SInjectTSC 0 5%Z]], 1.
+  split; [apply wit_wf|split; [simpl; lia|split; [discriminate|split]]].
+  - constructor; [reflexivity|constructor].
+  - vm_compute. discriminate.
+Qed.
+
+(* ... and holds when no pending pod is marked (no pod fails validation, or the call returns before GetPendingPods)
+   and no decision writes a shared pod (no default topology-spread constraints configured). *)
+Lemma simulate_changes_nothing_partial_l : forall roots slices types pods book h calls a,
   wf h -> a < next h ->
-  Forall (fun c => pending_marks (s_outcome c) (s_rejected c) = []) calls ->
-  let h' := simulate_all (genv roots slices types book) h calls in
+  Forall (fun c => pending_marks (s_outcome c) (s_rejected c) = [] /\
+                   forallb (fun o => negb (touches_shared_pod o)) (s_decisions c) = true) calls ->
+  let h' := simulate_all (genv roots slices types pods book) h calls in
   (~ In a types -> cells h' a = cells h a) /\ same_except_l [cacheF] (cells h a) (cells h' a).
 Proof.
-  intros roots slices types book h calls a Hwf Ha Hall. simpl.
+  intros roots slices types pods book h calls a Hwf Ha Hall. simpl.
   rewrite simulate_all_is_run_all.
-  replace (map (fun c => map PMark (pending_marks (s_outcome c) (s_rejected c)) ++ sched_ops (s_decisions c)) calls)
-    with (map sched_ops (map s_decisions calls)).
-  - apply scheduling_writes_fresh_only_l; auto.
-  - rewrite map_map. induction Hall as [|c cs Hc _ IH]; simpl; auto.
-    rewrite Hc. simpl. rewrite IH. reflexivity.
+  set (e := genv roots slices types pods book).
+  destruct (run_all_x (al_strict e) e
+              (map (fun c => map PMark (pending_marks (s_outcome c) (s_rejected c)) ++ sched_ops (s_decisions c)) calls)
+              h generated_table_ok Hwf) as [_ [_ X]].
+  - induction Hall as [|c cs [Hm Hd] _ IH]; simpl; constructor; auto.
+    rewrite Hm. simpl. clear Hm. unfold sched_ops.
+    induction (s_decisions c) as [|o r IHr]; simpl; [constructor|].
+    simpl in Hd. apply andb_true_iff in Hd. destruct Hd as [Ho Hr].
+    destruct (is_sim_op o) eqn:E; auto.
+    constructor; auto. apply permits_strict; auto. destruct (touches_shared_pod o); auto; discriminate.
+  - exact (rel_cache_of e a _ _ (X a Ha)).
 Qed.
 
 (* A provisioning pass (and any mix of passes and simulations, any number of them): below the allocation pointer,
-   only the bookkeeping cell, the nominatedUntil field of the cluster's own nodes and the unset cache field of
-   provider instance types may differ. *)
-Lemma provision_writes_only_nomination_and_bookkeeping_l : forall roots slices types book h (runs : list (list sop)) a,
-  wf h -> a < next h -> a <> book ->
-  let h' := run_all (genv roots slices types book) h runs in
+   only the bookkeeping cell, the shared pods, the nominatedUntil field of the cluster's own nodes and the unset
+   cache field of provider instance types may differ. *)
+Lemma provision_writes_only_nomination_and_bookkeeping_l : forall roots slices types pods book h (runs : list (list sop)) a,
+  wf h -> a < next h -> a <> book -> ~ In a pods ->
+  let h' := run_all (genv roots slices types pods book) h runs in
   (~ In a roots -> ~ In a types -> cells h' a = cells h a) /\ same_except_l [nomF; cacheF] (cells h a) (cells h' a).
 Proof.
-  intros roots slices types book h runs a Hwf Ha Hb. simpl.
-  set (e := genv roots slices types book).
+  intros roots slices types pods book h runs a Hwf Ha Hb Hp. simpl.
+  set (e := genv roots slices types pods book).
   destruct (run_all_x (al_prov e) e runs h generated_table_ok Hwf) as [_ [_ X]].
   - apply Forall_forall. intros ops _. apply Forall_forall. intros o _. apply permits_prov.
-  - specialize (X a Ha). unfold al_prov in X. simpl in X.
+  - specialize (X a Ha). unfold al_prov, exempt in X. simpl in X.
     destruct (Nat.eqb a book) eqn:Eb; [apply Nat.eqb_eq in Eb; contradiction|].
+    destruct (mem_a a pods) eqn:M; [apply mem_a_In in M; contradiction|].
     exact (rel_prov_of e a _ _ X).
 Qed.
 
@@ -748,7 +810,7 @@ Qed.
 
 Lemma shallow_copy_would_leak_l :
   exists h ops a, wf h /\ a < next h /\ forallb is_sim_op ops = true /\
-    cells (run (mkEnv shallow_table [7] [8] [10] 0) h ops) a <> cells h a.
+    cells (run (mkEnv shallow_table [7] [8] [10] [] 0) h ops) a <> cells h a.
 Proof.
   exists demo_heap, [SAddPod 0 42%Z], 1. split; [apply demo_wf|split; [simpl; lia|split; [reflexivity|]]].
   vm_compute. discriminate.
